@@ -22,9 +22,7 @@ use kira::sound::static_sound::{StaticSoundData, StaticSoundHandle, StaticSoundS
 use kira::sound::streaming::{Decoder, StreamingSoundData, StreamingSoundHandle, StreamingSoundSettings};
 use kira::sound::{EndPosition, PlaybackPosition, PlaybackState, Region, Sound, SoundData};
 use kira::{Decibels, Easing, Frame, Mapping, Panning, PlaybackRate, StartTime, Tween, Value};
-use std::collections::HashMap;
 use std::sync::{Arc, Condvar, Mutex, OnceLock};
-use std::thread::ThreadId;
 use std::time::{Duration, Instant};
 
 const RING: i64 = 16384;
@@ -40,21 +38,28 @@ enum Mode {
 struct CtlState {
 	mode: Mode,
 	permits: u64,
-	started: u64,
 	at_yield: bool,
 	full_events: u64,
 	ended: bool,
-	thread: Option<ThreadId>,
 }
 struct Ctl {
+	/// fast path of the free mode: the "decode_scheduler_run" yield point returns at once
+	paced: std::sync::atomic::AtomicBool,
 	m: Mutex<CtlState>,
 	cv: Condvar,
 }
 impl Ctl {
 	fn new(mode: Mode) -> Arc<Ctl> {
-		Arc::new(Ctl { m: Mutex::new(CtlState { mode, permits: 0, started: 0, at_yield: false, full_events: 0, ended: false, thread: None }), cv: Condvar::new() })
+		Arc::new(Ctl {
+			paced: std::sync::atomic::AtomicBool::new(mode == Mode::Paced),
+			m: Mutex::new(CtlState { mode, permits: 0, at_yield: false, full_events: 0, ended: false }),
+			cv: Condvar::new(),
+		})
 	}
 	fn at_run(&self) {
+		if !self.paced.load(std::sync::atomic::Ordering::SeqCst) {
+			return;
+		}
 		let mut g = self.m.lock().unwrap();
 		g.at_yield = true;
 		self.cv.notify_all();
@@ -65,7 +70,6 @@ impl Ctl {
 			g.permits -= 1;
 		}
 		g.at_yield = false;
-		g.started += 1;
 	}
 	fn at_full(&self) {
 		let mut g = self.m.lock().unwrap();
@@ -83,6 +87,7 @@ impl Ctl {
 	fn set_free(&self) {
 		let mut g = self.m.lock().unwrap();
 		g.mode = Mode::Free;
+		self.paced.store(false, std::sync::atomic::Ordering::SeqCst);
 		self.cv.notify_all();
 	}
 	/// paced: let the thread do `k` more iterations of its loop and wait until it stands at the top of the next
@@ -129,33 +134,32 @@ impl Ctl {
 	}
 }
 
-struct Registry {
-	pending: Option<Arc<Ctl>>,
-	by_thread: HashMap<ThreadId, Arc<Ctl>>,
+/// the control block of the streaming sound that is being created: claimed by its decoder thread at that
+/// thread's first yield point (the harness creates one streaming sound at a time)
+fn pending() -> &'static Mutex<Option<Arc<Ctl>>> {
+	static R: OnceLock<Mutex<Option<Arc<Ctl>>>> = OnceLock::new();
+	R.get_or_init(|| Mutex::new(None))
 }
-fn registry() -> &'static Mutex<Registry> {
-	static R: OnceLock<Mutex<Registry>> = OnceLock::new();
-	R.get_or_init(|| Mutex::new(Registry { pending: None, by_thread: HashMap::new() }))
+/// every control block handed out, to check at the end that all decoder threads have ended
+fn all_ctls() -> &'static Mutex<Vec<Arc<Ctl>>> {
+	static R: OnceLock<Mutex<Vec<Arc<Ctl>>>> = OnceLock::new();
+	R.get_or_init(|| Mutex::new(Vec::new()))
+}
+thread_local! {
+	static MY_CTL: std::cell::RefCell<Option<Arc<Ctl>>> = const { std::cell::RefCell::new(None) };
 }
 fn hook(name: &'static str) {
 	if name != "decode_scheduler_run" && name != "decode_scheduler_full" {
 		return;
 	}
-	let id = std::thread::current().id();
-	let ctl = {
-		let mut r = registry().lock().unwrap();
-		match r.by_thread.get(&id) {
-			Some(c) => c.clone(),
-			None => match r.pending.take() {
-				Some(c) => {
-					c.m.lock().unwrap().thread = Some(id);
-					r.by_thread.insert(id, c.clone());
-					c
-				}
-				None => return,
-			},
+	let ctl = MY_CTL.with(|c| {
+		let mut c = c.borrow_mut();
+		if c.is_none() {
+			*c = pending().lock().unwrap().take();
 		}
-	};
+		c.clone()
+	});
+	let Some(ctl) = ctl else { return };
 	if name == "decode_scheduler_run" {
 		ctl.at_run();
 	} else {
@@ -219,8 +223,6 @@ impl Decoder for ScriptDecoder {
 }
 impl Drop for ScriptDecoder {
 	fn drop(&mut self) {
-		let id = std::thread::current().id();
-		registry().lock().unwrap().by_thread.remove(&id);
 		self.ctl.mark_ended();
 	}
 }
@@ -518,8 +520,6 @@ struct Trace {
 	decs: Vec<u64>,
 	/// the harness's own bookkeeping says the decoder kept ahead throughout (paced mode: exact; free mode: by construction)
 	ahead: bool,
-	/// the decoder thread had ended by the end of the run
-	thread_ended: bool,
 }
 
 fn frames_of(sc: &Scenario) -> Vec<Frame> {
@@ -628,7 +628,8 @@ fn push_out(obs: &mut Vec<i128>, buf: &[Frame], st: PlaybackState, fin: bool) {
 fn spawn_streaming(ids: &Ids, sc: &Scenario, mode: Mode) -> (Arc<Ctl>, StreamingSoundData<i128>) {
 	let ctl = Ctl::new(mode);
 	let data = streaming_data(ids, sc, &ctl);
-	registry().lock().unwrap().pending = Some(ctl.clone());
+	*pending().lock().unwrap() = Some(ctl.clone());
+	all_ctls().lock().unwrap().push(ctl.clone());
 	(ctl, data)
 }
 
@@ -744,14 +745,9 @@ fn run_direct(ids: &Ids, sc: &Scenario) -> Trace {
 	};
 	if panicked.is_some() && !created {
 		// creation failed: the model predicts [1; code] for the side that panicked
-		registry().lock().unwrap().pending = None;
+		*pending().lock().unwrap() = None;
 	}
-	// the decoder thread must end now that the sound is gone (C10 proves it; here it keeps the process tidy)
-	let t0 = Instant::now();
-	while !ctl2.ended() && t0.elapsed() < Duration::from_millis(2000) && created {
-		std::thread::sleep(Duration::from_micros(200));
-	}
-	Trace { st, sm, tab, panicked, decs, ahead, thread_ended: ctl2.ended() }
+	Trace { st, sm, tab, panicked, decs, ahead }
 }
 
 // ------------------------------------------------------------------------------------------
@@ -1093,9 +1089,6 @@ fn submit(s: &mut Session, ids: &Ids, kind: &str, sc: &Scenario, to_model: bool)
 	let fast = true;
 	let t = term(sc, fast, &tr.decs, &tr.tab);
 	let ok = monitors(s, &if to_model { t.clone() } else { describe(sc) }, sc, &tr);
-	if tr.panicked.is_none() && !tr.thread_ended {
-		s.fail(if to_model { t.clone() } else { describe(sc) }, "the decoder thread did not end within 2 s of the sound being dropped".into(), None);
-	}
 	let nontrivial = sc.cbs.iter().any(|c| c.cmds.any()) || sc.lp.is_some() || sc.slice.is_some() || tr.st.calls.iter().any(|c| c.2 == PlaybackState::Stopped);
 	if to_model && tr.panicked.is_none() {
 		let mut obs = tr.st.obs.clone();
@@ -1214,18 +1207,14 @@ fn manager_pair(s: &mut Session, ids: &Ids, r: &mut Rng) {
 		}
 		_ => s.fail(desc, format!("panic while driving the two managers: {}", last_panic()), None),
 	}
-	let t0 = Instant::now();
-	while !ctl2.ended() && t0.elapsed() < Duration::from_millis(2000) {
-		std::thread::sleep(Duration::from_micros(200));
-	}
 }
 
 pub fn run(args: &Args) {
 	let mut rng = Rng::new(args.seed ^ 0xC09);
 	install_hook();
 	let mul = args.budget_mul;
-	let n_model: u64 = (if args.thorough { 12_000 } else { 1_000 }) * mul;
-	let n_paced: u64 = (if args.thorough { 4_000 } else { 400 }) * mul;
+	let n_model: u64 = (if args.thorough { 6_000 } else { 500 }) * mul;
+	let n_paced: u64 = (if args.thorough { 2_400 } else { 200 }) * mul;
 	let n_big: u64 = (if args.thorough { 20_000 } else { 1_500 }) * mul;
 	let n_mgr: u64 = (if args.thorough { 4_000 } else { 300 }) * mul;
 	let mut s = Session::new(
@@ -1237,11 +1226,13 @@ pub fn run(args: &Args) {
 		"one case = one frame vector (random / index-coded samples, 0-40 frames for model cases, up to 40000 for monitor-only ones), settings (sound and device rates, start position in samples or seconds incl. beyond the end, slice, loop region incl. empty / inverted / beyond the end, start time, volume / rate / panning fixed or modulator-linked, fade-in), a scripted decoder over the same vector (packet sizes 1..all, seek granularity 1..1000 packets), and a history of callbacks (1-2 process calls of 1-256 frames) with volume / rate / panning / pause / resume / resume_at / stop commands; the real static and the real streaming sound (real decoder thread, kept ahead through the decode_scheduler yield points: free-running or paced with exactly tight / generous / starving leads) are driven side by side; monitors = the property (outputs bit-identical, states and finished() identical after every call, positions within one frame until the end); model cases compare both traces with the Coq model; distinct = distinct scenarios with a command, loop, slice or natural end",
 	);
 	let ids = ids();
+	let t_phase = Instant::now();
 	// 1. model cases, free-running decoder
 	for _ in 0..n_model {
 		let sc = gen_scenario(&mut rng, true, Lead::Free);
 		submit(&mut s, &ids, "pair_free", &sc, true);
 	}
+	eprintln!("phase1 {:?}", t_phase.elapsed());
 	// 2. model cases, paced decoder: exactly tight, generous, starving leads
 	for i in 0..n_paced {
 		let lead = match i % 4 {
@@ -1252,14 +1243,31 @@ pub fn run(args: &Args) {
 		let sc = gen_scenario(&mut rng, true, lead);
 		submit(&mut s, &ids, &format!("pair_paced_{lead:?}"), &sc, true);
 	}
+	eprintln!("phase2 {:?}", t_phase.elapsed());
 	// 3. monitor-only: long sounds, large rates, big buffers (ring wrap-around, refills while playing)
 	for _ in 0..n_big {
 		let sc = gen_scenario(&mut rng, false, Lead::Free);
 		submit(&mut s, &ids, "pair_big", &sc, false);
 	}
+	eprintln!("phase3 {:?}", t_phase.elapsed());
 	// 4. through two real managers
 	for _ in 0..n_mgr {
 		manager_pair(&mut s, &ids, &mut rng);
+	}
+	eprintln!("phase4 {:?}", t_phase.elapsed());
+	// every decoder thread must have ended now that its sound is gone (C10 proves it; checked here because a
+	// thread left behind would also mean a control block that no longer reports)
+	let t0 = Instant::now();
+	loop {
+		let live = all_ctls().lock().unwrap().iter().filter(|c| !c.ended()).count();
+		if live == 0 {
+			break;
+		}
+		if t0.elapsed() > Duration::from_secs(5) {
+			s.fail(format!("{live} of {} streaming sounds", all_ctls().lock().unwrap().len()), "decoder threads still alive 5 s after their sounds were dropped".into(), None);
+			break;
+		}
+		std::thread::sleep(Duration::from_millis(1));
 	}
 	kira::verif::set_yield_hook(None);
 	s.finish();
